@@ -4,6 +4,7 @@ CONSTANTS
   RecIds <- RecsSmall
   RootId = 1
   PhenoId = 2
+  WithExtras = FALSE
   WithPairs = FALSE
   MaxFacts = 3
   EmitAll = TRUE
